@@ -800,21 +800,35 @@ def run_race(ctx, scns):
             reports.append(m.group(1))
     sites = {}
     for rep in reports:
-        fr = re.findall(r"\n\s+(main\.[^\n(]+)\(\)\n\s+(\S+?):(\d+)", "\n" + rep)
-        server = [(f, os.path.basename(p), ln) for f, p, ln in fr if "zz_verif" not in p]
-        key = " <-> ".join("%s %s:%s" % x for x in server[:1] + [x for x in server[1:] if x != server[0]][:1]) if server else "harness-only"
-        # first frame of each of the two stacks
-        stacks = re.split(r"\n\n", rep)
+        # first frame of each of the two stacks that is not inside the Go runtime
         tops = []
-        for s in stacks[:2]:
-            m = re.search(r"\n\s+(\S+)\(\)\n\s+(\S+?):(\d+)", "\n" + s)
-            if m:
-                tops.append("%s %s:%s" % (m.group(1), os.path.basename(m.group(2)), m.group(3)))
-        key = " <-> ".join(tops) if tops else key
-        sites.setdefault(key, []).append(rep)
-    for key, reps in sites.items():
-        if "zz_verif" in key and "main." not in key.replace("zz_verif", ""):
-            continue
-        ctx.violation("monitor", "data-race", "Go race detector: unsynchronised access %s (%d reports)" % (key, len(reps)),
-                      {"race_report": reps[0][:3000], "site": key, "how": "thorough tier, -race build of the driver, burst scenarios"})
+        for st in re.split(r"\n\n", rep)[:2]:
+            for m in re.finditer(r"\n\s+(\S+)\(\)\n\s+(\S+?):(\d+)", "\n" + st):
+                if m.group(1).startswith("runtime.") or m.group(1).startswith("sync."):
+                    continue
+                tops.append((m.group(1).split("/")[-1], os.path.basename(m.group(2)), m.group(3)))
+                break
+        sites.setdefault(tuple(tops), []).append(rep)
+    laws = {}
+    for tops, reps in sites.items():
+        if not tops or any("zz_verif" in f for _, f, _ in tops):
+            continue      # an access of the driver itself (it reads the server's objects at quiescence)
+        fns = [re.sub(r"\.func\d+$", "", fn.replace("server.", "").replace("(*", "").replace(")", "")) for fn, _, _ in tops]
+        files = [f for _, f, _ in tops]
+        if any(f.endswith("stopTopicsForUser") or f.endswith("topicsStateForUser") for f in fns):
+            law = "data-race-stopTopicsForUser-reads-topic-state"
+        elif any(f == "Hub.topicUnreg" for f in fns) and any(fl == "init_topic.go" for fl in files):
+            law = "data-race-topicUnreg-reads-loading-topic"
+        elif all(f in ("Hub.topicPut", "Hub.topicDel") for f in fns):
+            law = "data-race-hub-numTopics"
+        else:
+            law = "data-race-" + "-".join(sorted(set(fns)))
+        laws.setdefault(law, []).append((tops, reps))
+    for law, lst in laws.items():
+        tops, reps = lst[0]
+        ctx.violation("monitor", law, "Go race detector: unsynchronised access %s (%d reports, %d site pairs)" % (
+            " <-> ".join("%s %s:%s" % t for t in tops), sum(len(r) for _, r in lst), len(lst)),
+            {"race_report": reps[0][:3000], "sites": [" <-> ".join("%s %s:%s" % t for t in tp) for tp, _ in lst][:20],
+             "how": "thorough tier, -race build of the driver, burst scenarios"})
+    sites = {" <-> ".join("%s %s:%s" % t for t in tp): r for tp, r in sites.items()}
     return {"built": True, "scenarios": len(scns), "reports": len(reports), "distinct_sites": sorted(sites)[:40], "wall_s": round(time.time() - t0, 1)}
